@@ -126,6 +126,38 @@ def random_rooms(rng, h, w, nrooms):
     return [r for r in rooms if r]
 
 
+def all_room_partitions(h, w):
+    """EVERY partition of the board into orthogonally connected rooms (12 on 2x2, 74 on 2x3): systematic room layouts"""
+    cells = [(y, x) for y in range(h) for x in range(w)]
+    out = []
+
+    def conn(b):
+        seen, todo = {b[0]}, [b[0]]
+        bs = set(b)
+        while todo:
+            y, x = todo.pop()
+            for q in ((y + 1, x), (y - 1, x), (y, x + 1), (y, x - 1)):
+                if q in bs and q not in seen:
+                    seen.add(q)
+                    todo.append(q)
+        return len(seen) == len(bs)
+
+    def rec(i, blocks):
+        if i == len(cells):
+            if all(conn(b) for b in blocks):
+                out.append([list(b) for b in blocks])
+            return
+        for b in blocks:
+            b.append(cells[i])
+            rec(i + 1, blocks)
+            b.pop()
+        blocks.append([cells[i]])
+        rec(i + 1, blocks)
+        blocks.pop()
+    rec(0, [])
+    return out
+
+
 def room_ids(h, w, rooms):
     rid = [[-1] * w for _ in range(h)]
     for i, r in enumerate(rooms):
@@ -408,6 +440,10 @@ class Heyawake(Base):
                 rooms = random_rooms(rng, h, w, rng.randint(1, 4))
                 clues = [rng.choice([-1, -1, 0, 1, 2]) for _ in rooms]
                 out.append({"tag": "%dx%d/r%d" % (h, w, k), "h": h, "w": w, "rooms": rooms, "clues": clues})
+        # every room layout of the small boards, clue-free (the border-crossing rule depends on the layout only)
+        for (h, w) in ([(2, 3), (3, 2), (1, 3), (1, 4), (3, 1)] if tier == "quick" else [(2, 3), (3, 2), (1, 3), (1, 4), (3, 1), (4, 1), (2, 4), (4, 2), (1, 5)]):
+            for i, rooms in enumerate(all_room_partitions(h, w)):
+                out.append({"tag": "%dx%d/all%d" % (h, w, i), "h": h, "w": w, "rooms": rooms, "clues": [-1] * len(rooms)})
         return out
 
     def call(self, mod, d):
@@ -493,6 +529,9 @@ class Norinori(Base):
                 continue
             for k in range(6 if tier == "quick" else 30):
                 out.append({"tag": "%dx%d/r%d" % (h, w, k), "h": h, "w": w, "rooms": random_rooms(rng, h, w, rng.randint(1, 3))})
+        for (h, w) in ([(2, 3), (3, 2), (2, 2)] if tier == "quick" else [(2, 3), (3, 2), (2, 2), (2, 4), (4, 2), (1, 4)]):
+            for i, rooms in enumerate(all_room_partitions(h, w)):
+                out.append({"tag": "%dx%d/all%d" % (h, w, i), "h": h, "w": w, "rooms": rooms})
         return out
 
     def call(self, mod, d):
@@ -781,6 +820,14 @@ class Aquarium(Base):
                 cr = [rng.choice([-1, -1, 0, 1, 2]) for _ in range(h)]
                 cc = [rng.choice([-1, -1, 0, 1, 2]) for _ in range(w)]
                 out.append({"tag": "%dx%d/r%d" % (h, w, k), "h": h, "w": w, "rooms": rooms, "row": cr, "col": cc})
+        # every row-convex tank layout of the small boards, clue-free (gravity and level rules depend on the layout only)
+        for (h, w) in ([(2, 2), (2, 3), (3, 2)] if tier == "quick" else [(2, 2), (2, 3), (3, 2), (2, 4), (4, 2), (3, 3)]):
+            for i, rooms in enumerate(all_room_partitions(h, w)):
+                rid = room_ids(h, w, rooms)
+                if any(xs != list(range(xs[0], xs[-1] + 1)) for k in range(len(rooms)) for y in range(h)
+                       for xs in [[x for x in range(w) if rid[y][x] == k]] if xs):
+                    continue
+                out.append({"tag": "%dx%d/all%d" % (h, w, i), "h": h, "w": w, "rooms": rooms, "row": [-1] * h, "col": [-1] * w})
         return out
 
     def call(self, mod, d):
@@ -883,6 +930,9 @@ class Putteria(Base):
         for (h, w) in shapes(8 if tier == "quick" else 12):
             for k in range(6 if tier == "quick" else 30):
                 out.append({"tag": "%dx%d/r%d" % (h, w, k), "h": h, "w": w, "rooms": random_rooms(rng, h, w, rng.randint(1, 4))})
+        for (h, w) in ([(2, 3), (3, 2), (2, 2)] if tier == "quick" else [(2, 3), (3, 2), (2, 2), (2, 4), (4, 2), (1, 4)]):
+            for i, rooms in enumerate(all_room_partitions(h, w)):
+                out.append({"tag": "%dx%d/all%d" % (h, w, i), "h": h, "w": w, "rooms": rooms})
         return out
 
     def call(self, mod, d):
@@ -1049,6 +1099,11 @@ class Lits(Base):
             for k in range(5 if tier == "quick" else 25):
                 rooms = random_rooms(rng, h, w, rng.randint(1, 3))
                 out.append({"tag": "%dx%d/r%d" % (h, w, k), "h": h, "w": w, "rooms": rooms})
+        # every layout of the small boards whose rooms can all hold a tetromino
+        for (h, w) in ([(2, 4), (4, 2), (3, 3)] if tier == "quick" else [(2, 4), (4, 2), (3, 3), (2, 5), (5, 2), (3, 4)]):
+            for i, rooms in enumerate(all_room_partitions(h, w)):
+                if min(len(r) for r in rooms) >= 4:
+                    out.append({"tag": "%dx%d/all%d" % (h, w, i), "h": h, "w": w, "rooms": rooms})
 
         # regions fat enough to hold a plus-shaped neighbourhood (a T centred on a cell whose four neighbours are in the region),
         # next to other regions, so that T / L / S signatures matter
